@@ -15,7 +15,7 @@ from .. import harness, par
 
 PID = "C07"
 ATOMS = [{1: "a", 2: "é", 3: "€", 4: "\U0001F600"},
-         {1: "\r", 2: "\r\n", 3: "€", 4: "\U0001F600"},          # carriage returns: a limited buffer must not translate line ends
+         {1: "a", 2: "\rb", 3: "\r\nc", 4: "\U0001F600"},        # carriage returns (never whitespace-only text: a blank block is not buffered): a limited buffer must not translate line ends
          {1: "a", 2: "é", 3: "\ud800", 4: "\U0001F600"}]         # a lone surrogate (3 bytes with surrogatepass): JSON-like data may hold one
 ATOM = ATOMS[0]
 
